@@ -223,8 +223,10 @@ def run(ctx):
         scs = split_scenarios(json.load(open(ctx.replay)).get("ops", []))
     else:
         corpus = [l.strip() for l in open(os.path.join(here, "corpus.ops")) if l.strip() and not l.startswith("#")]
-        scs = split_scenarios(corpus) + [gen_scenario(ctx.rng) for _ in range(ctx.scale(700, 6000))]
-        for _ in range(ctx.scale(40, 400)):
+        scs = split_scenarios(corpus) + [gen_scenario(ctx.rng) for _ in range(ctx.scale(700, 4000))]
+        # boundary cases around k*L == ClientQueueMaxSize (L = 52 for the probe message), always run
+        scs += [[f"slow qmax={q} k={k}"] for q in (155, 156, 157, 207, 208, 209) for k in (2, 3, 4)]
+        for _ in range(ctx.scale(25, 400)):
             qmax = ctx.rng.choice([0, 155, 156, 157, 200, 208, 520, 1000, 1040])
             k = ctx.rng.choice([0, 1, 2, 3, 4, 5, 9, 10, 11, 19, 20, 30])
             scs.append([f"slow qmax={qmax} k={k}"])
